@@ -5,10 +5,10 @@
 EXTENDS GroupName, Json, IOUtils
 
 CONSTANTS MaxChunks, MaxTotal, MaxKeys, MaxCount, NAlpha
-AlphaSel == IF NAlpha >= 4 THEN {<<67>>, <<72>>, <<67, 91, 100, 93>>, <<67, 79>>} ELSE {<<67>>, <<72>>, <<67, 91, 100, 93>>}
-
-\* C  H  C[d]  CO   (multi-letter and bracketed names; "C" < "C[d]" < "CO" < "H")
-Alpha == {<<67>>, <<72>>, <<67, 91, 100, 93>>, <<67, 79>>} \cap AlphaSel
+\* C  O  CO  C[d]  H: a name that is the concatenation of two others (CO = C + O), a bracketed name
+\* that sorts between them ("C" < "C[d]" < "CO" < "H" < "O"; case-insensitively "CO" < "C[d]")
+AlphaList == <<<<67>>, <<79>>, <<67, 79>>, <<67, 91, 100, 93>>, <<72>>>>
+Alpha == {AlphaList[k] : k \in 1..NAlpha}
 Centres == {<<67>>, <<67, 79>>}
 \* a chunk "(n)" or "(n)c"; x = the count is written
 Chunk == {ch \in [n : Alpha, c : 1..MaxCount, x : BOOLEAN] : ch.c > 1 => ch.x}
